@@ -51,7 +51,10 @@ pub(crate) fn log(event: DrawEvent) {
 
 /// Stands in for the evaluation context inside `random(n)`: forwards the draw to the
 /// real context unchanged (same range expression, same generator) and logs its result.
-pub(crate) struct LoggedContext<'a>(pub(crate) &'a crate::eval_context::EvalContext, pub(crate) i64);
+pub(crate) struct LoggedContext<'a>(
+    pub(crate) &'a crate::eval_context::EvalContext,
+    pub(crate) i64,
+);
 
 impl<'a> LoggedContext<'a> {
     pub(crate) fn random<R: rand::distributions::uniform::SampleRange<i64>>(
